@@ -4,6 +4,7 @@ package otlptracehttp
 
 import (
 	"context"
+	"time"
 
 	"google.golang.org/protobuf/proto"
 
@@ -16,16 +17,48 @@ const vCanStop = true
 
 type vUploader struct {
 	upload  func(context.Context) error
-	stop    func()
+	stop    func() error
+	stopCtx func(context.Context) error
 	payload []byte
 }
 
-func vNewUploader(gz bool, rc RetryConfig) *vUploader {
+// vTimeoutOpts: the client timeout dimension (d: option absent = default 10 s, p: 30 s, z: 0 = none)
+func vTimeoutOpts(to string) []Option {
+	switch to {
+	case "p":
+		return []Option{WithTimeout(30 * time.Second)}
+	case "z":
+		return []Option{WithTimeout(0)}
+	}
+	return nil
+}
+
+func vHost(host string) string {
+	if host == "" {
+		return "verif.invalid:4318"
+	}
+	return host
+}
+
+// vExporter: what the `shut` scenario drives.
+type vExporter struct {
+	export   func(context.Context) error
+	shutdown func(context.Context) error
+}
+
+// For the trace exporter the otlptrace.Exporter passes ExportSpans / Shutdown straight to the client's UploadTraces /
+// Stop, which is what is called here.
+func vNewExporter(host string, rc RetryConfig, to string) *vExporter {
+	up := vNewUploader(host, false, rc, to)
+	return &vExporter{export: up.upload, shutdown: up.stopCtx}
+}
+
+func vNewUploader(host string, gz bool, rc RetryConfig, to string) *vUploader {
 	comp := NoCompression
 	if gz {
 		comp = GzipCompression
 	}
-	c := NewClient(WithInsecure(), WithEndpoint("verif.invalid:4318"), WithRetry(rc), WithCompression(comp))
+	c := NewClient(append([]Option{WithInsecure(), WithEndpoint(vHost(host)), WithRetry(rc), WithCompression(comp)}, vTimeoutOpts(to)...)...)
 	spans := []*tracepb.ResourceSpans{{ScopeSpans: []*tracepb.ScopeSpans{{Spans: []*tracepb.Span{{
 		Name: "verif-c14", TraceId: []byte{1, 2, 3, 4, 5, 6, 7, 8, 9, 10, 11, 12, 13, 14, 15, 16}, SpanId: []byte{1, 2, 3, 4, 5, 6, 7, 8},
 		StartTimeUnixNano: 1, EndTimeUnixNano: 2}}}}}}
@@ -35,7 +68,8 @@ func vNewUploader(gz bool, rc RetryConfig) *vUploader {
 	}
 	return &vUploader{
 		upload:  func(ctx context.Context) error { return c.UploadTraces(ctx, spans) },
-		stop:    func() { _ = c.Stop(context.Background()) },
+		stop:    func() error { return c.Stop(context.Background()) },
+		stopCtx: c.Stop,
 		payload: payload,
 	}
 }
